@@ -36,7 +36,35 @@ func clockInit() {
 	})
 }
 
-func setClock(t int64) { dateutil.SyncTimeMillis = t }
+func setClock(t int64) { dateutil.SyncTimeMillis = t; dateutil.SetDelta(0) }
+
+// realClock: the process never switches the frozen mode on; virtual time is real time plus
+// the server-sync delta (the way the product runs).  Only histories whose decisions are
+// seconds away from every boundary are run this way.
+var realClock bool
+
+// setTime puts the virtual clock of history c at t before operation i (-1 = creation).
+//   sync    SystemNow() = t, delta = 0
+//   delta   SystemNow() = t - D, delta = D set through dateutil.SetDelta  (D per operation from c.Deltas)
+//   server  SystemNow() stays at the history's system time; dateutil.SetServerTime(t, 1) derives the delta
+//   real    SystemNow() = time.Now(); delta = t - time.Now() through dateutil.SetDelta
+func (c *hcase) setTime(i int, t int64) {
+	if realClock {
+		dateutil.SetDelta(t - time.Now().UnixMilli())
+		return
+	}
+	switch c.Clock {
+	case "delta":
+		d := c.Deltas[(i+1)%len(c.Deltas)]
+		dateutil.SyncTimeMillis = t - d
+		dateutil.SetDelta(d)
+	case "server":
+		dateutil.SyncTimeMillis = c.T0 - c.Deltas[0]
+		dateutil.SetServerTime(t, 1.0)
+	default:
+		setClock(t)
+	}
+}
 
 const baseTime = int64(946684800000)
 const dayMs = int64(86400000)
@@ -124,7 +152,9 @@ type hop struct {
 }
 
 type hcase struct {
-	Gen    string `json:"gen"`
+	Gen    string  `json:"gen"`
+	Clock  string  `json:"clock,omitempty"`  // sync (default) | delta | server | real
+	Deltas []int64 `json:"deltas,omitempty"` // server-sync deltas (ms)
 	T0     int64  `json:"t0"`
 	Level  int    `json:"level"`
 	Oname  string `json:"oname"`
@@ -324,7 +354,12 @@ func (o *hop) fileArg(home string) string {
 
 // runImpl executes the history on a fresh real logger.
 func runImpl(c *hcase) *obs {
-	clockInit()
+	if !realClock {
+		clockInit()
+	}
+	if (c.Clock == "delta" || c.Clock == "server") && len(c.Deltas) == 0 {
+		c.Deltas = []int64{3600000}
+	}
 	home := newHome()
 	defer os.RemoveAll(home)
 	logs := filepath.Join(home, "logs")
@@ -359,7 +394,7 @@ func runImpl(c *hcase) *obs {
 	ob.dels = make([][]string, n)
 	ob.before = make([][]string, n)
 
-	setClock(c.T0)
+	c.setTime(-1, c.T0)
 	var l *logfile.FileLogger
 	out := vh.Guard(func() {
 		l = logfile.NewFileLogger(logfile.WithHomePath(home), logfile.WithOnameLogID(c.Oname, c.LogID), logfile.WithLevel(c.Level))
@@ -375,7 +410,7 @@ func runImpl(c *hcase) *obs {
 
 	for i := range c.Ops {
 		o := &c.Ops[i]
-		setClock(o.T)
+		c.setTime(i, o.T)
 		switch o.Kind {
 		case "log":
 			before := curSize(l)
